@@ -226,23 +226,32 @@ def scan(repo=None):
                         elif isinstance(t, ast.Subscript) and isinstance(t.value, ast.Name) and t.value.id in module_dicts:
                             rows.append({"path": rel, "file": os.path.basename(rel), "func": qual, "attr": t.value.id,
                                          "target": "<module>", "valueKind": "keyedCache", "readBack": True,
-                                         "line": n.lineno, "events": {}})
+                                         "line": n.lineno, "events": {}, "first_line": fn.lineno, "last_line": fn.end_lineno})
             for lineno, tgt, attr, val in writes:
                 tgt_s = ast.unparse(tgt)
                 # read back: the same function later hands the object to `<tgt>.__set__(..)` (which stores under
                 # and reports errors with that attribute) or reads `getattr(<tgt>, attr)` / `<tgt>.<attr>`
-                events = {}
+                events = {"W": lineno, "S": [], "R": [], "N": []}
                 read_back = False
+                rhs_nodes = set()
+                for st in ast.walk(fn):
+                    if isinstance(st, ast.Assign):
+                        rhs_nodes |= {id(x) for x in ast.walk(st.value)}
+                    if isinstance(st, ast.Assign) and isinstance(st.value, ast.Call) and \
+                            isinstance(st.value.func, ast.Name) and st.value.func.id == "Structure" and \
+                            st.lineno not in events["N"]:
+                        events["N"].append(st.lineno)
                 for m in ast.walk(fn):
                     if isinstance(m, ast.Call):
                         if (isinstance(m.func, ast.Attribute) and m.func.attr == "__set__"
                                 and ast.unparse(m.func.value) == tgt_s):
                             read_back = True
-                            events.setdefault(str(m.lineno), []).append("S")
+                            events["S"].append(_stmt_line(fn, m))
                         if (isinstance(m.func, ast.Name) and m.func.id == "getattr" and len(m.args) >= 2
                                 and _const_str(m.args[1]) == attr and ast.unparse(m.args[0]) == tgt_s):
                             read_back = True
-                            events.setdefault(str(_stmt_line(fn, m)), []).append("R")
+                            # evaluation order inside one statement: right-hand side of an assignment first
+                            events["R"].append([_stmt_line(fn, m), [0 if id(m) in rhs_nodes else 1, m.lineno, m.col_offset]])
                     elif isinstance(m, ast.Attribute) and isinstance(m.ctx, ast.Load) and m.attr == attr \
                             and ast.unparse(m.value) == tgt_s and tgt_s != "self":
                         read_back = True
@@ -313,8 +322,22 @@ def regenerate(repo=None, out=OUT):
     return rows
 
 
+def pin():
+    """refresh the committed Pinned copy from the current Generated table"""
+    text = open(OUT, encoding="utf-8").read()
+    text = text.replace("GENERATED by extract/shared_writes.py from the typedpy working tree — do not edit.",
+                        "PINNED copy of Generated/SharedWrites.lean at the tree Sem/Sched.lean was last aligned with "
+                        "(for reviewers; refresh with extract/shared_writes.py --pin).")
+    text = text.replace("namespace Typedpy.Generated", "namespace Typedpy.Pinned").replace(
+        "end Typedpy.Generated", "end Typedpy.Pinned")
+    with open(os.path.join(ROOT, "lean", "TypedpyModel", "Pinned", "SharedWrites.lean"), "w", encoding="utf-8") as f:
+        f.write(text)
+
+
 if __name__ == "__main__":
     rs = regenerate()
+    if "--pin" in sys.argv:
+        pin()
     if "-v" in sys.argv:
         for r in rs:
             print(key_of(r), r["line"], r["target"], r["valueKind"], r["readBack"], r.get("events"))
